@@ -645,3 +645,283 @@ Lemma repairs_reject :
   region_errors all_fixes r_read_rhs = [EReadReduction] /\
   region_errors all_fixes r_mixed = [].
 Proof. vm_compute. auto. Qed.
+
+(* ---- the classification of uniformly used names ----------------------------------------------------
+   rho declares one role per name; [uses rho st]: every assignment form in st, at every nesting level,
+   is the form of the declared role.  Then the compiler model gives every assigned name exactly the
+   declared clause, whatever the nesting of range / prange loops and conditionals. *)
+
+Definition op_of (c : clause) : option (option iop) :=
+  match c with CRed o => Some (Some o) | CFirstLast => Some None | _ => None end.
+
+Fixpoint uses (rho : var -> clause) (st : stmt) : bool :=
+  match st with
+  | SSkip => true
+  | SSeq a b => uses rho a && uses rho b
+  | SAssign x _ => clause_eqb (rho x) CFirstLast
+  | SInplace x o _ => omp_reduction_op o && clause_eqb (rho x) (CRed o)
+  | SIf _ t e => uses rho t && uses rho e
+  | SLoop _ x _ b => clause_eqb (rho x) CFirstLast && uses rho b
+  end.
+
+Fixpoint assignedb (x : var) (st : stmt) : bool :=
+  match st with
+  | SSkip => false
+  | SSeq a b => assignedb x a || assignedb x b
+  | SAssign y _ => Nat.eqb x y
+  | SInplace y _ _ => Nat.eqb x y
+  | SIf _ t e => assignedb x t || assignedb x e
+  | SLoop _ y _ b => Nat.eqb x y || assignedb x b
+  end.
+
+(* assigned in the node itself (nested prange bodies and their targets belong to other nodes) *)
+Fixpoint directb (x : var) (st : stmt) : bool :=
+  match st with
+  | SSkip => false
+  | SSeq a b => directb x a || directb x b
+  | SAssign y _ => Nat.eqb x y
+  | SInplace y _ _ => Nat.eqb x y
+  | SIf _ t e => directb x t || directb x e
+  | SLoop false y _ b => Nat.eqb x y || directb x b
+  | SLoop true _ _ _ => false
+  end.
+
+Section Declared.
+  Variable rho : var -> clause.
+
+  Definition allc (al : alist) : Prop := Forall (fun p => op_of (rho (fst p)) = Some (snd p)) al.
+  Definition dom (al : alist) (q : var) : Prop := aget al q <> None.
+
+  Lemma aget_aset al x v q : aget (aset al x v) q = if Nat.eqb x q then Some v else aget al q.
+  Proof.
+    induction al as [|[y u] r IH]; cbn [aset aget].
+    - reflexivity.
+    - destruct (Nat.eqb y x) eqn:Eyx; cbn [aget].
+      + apply Nat.eqb_eq in Eyx. subst y. destruct (Nat.eqb x q); reflexivity.
+      + rewrite IH. destruct (Nat.eqb y q) eqn:Eyq; [|reflexivity].
+        apply Nat.eqb_eq in Eyq. subst y. rewrite Nat.eqb_sym, Eyx. reflexivity.
+  Qed.
+
+  Lemma aget_in al y v : aget al y = Some v -> In (y, v) al.
+  Proof.
+    induction al as [|[z u] r IH]; cbn [aget]; [discriminate|].
+    destruct (Nat.eqb z y) eqn:E; [|auto with datatypes].
+    apply Nat.eqb_eq in E. subst. intros [= ->]. now left.
+  Qed.
+
+  Lemma allc_aget al y v : allc al -> aget al y = Some v -> op_of (rho y) = Some v.
+  Proof. intros H Hg. apply aget_in in Hg. unfold allc in H. rewrite Forall_forall in H. exact (H _ Hg). Qed.
+
+  Lemma aset_allc al x v : allc al -> op_of (rho x) = Some v -> allc (aset al x v).
+  Proof.
+    intros H Hx. induction H as [|[y u] r Hy Hr IH]; cbn [aset]; [repeat constructor; exact Hx|].
+    destruct (Nat.eqb y x) eqn:E.
+    - apply Nat.eqb_eq in E. subst. constructor; assumption.
+    - constructor; assumption.
+  Qed.
+
+  Lemma aset_dom al x v q : x = q \/ dom al q -> dom (aset al x v) q.
+  Proof.
+    unfold dom. rewrite aget_aset. intros [->|H]; [rewrite Nat.eqb_refl; discriminate|].
+    destruct (Nat.eqb x q); [discriminate|assumption].
+  Qed.
+
+  Lemma mark_fst x op acc : fst (mark x op acc) = aset (fst acc) x op.
+  Proof. destruct acc. reflexivity. Qed.
+
+  Lemma marks_allc st : forall acc, uses rho st = true -> allc (fst acc) -> allc (fst (marks st acc)).
+  Proof.
+    induction st as [|a IHa b IHb|x ex|x o ex|c t IHt f IHf|par x n b IHb]; intros acc Hu Ha; cbn [marks uses] in *.
+    - assumption.
+    - apply andb_prop in Hu. destruct Hu. auto.
+    - rewrite mark_fst. apply aset_allc; [assumption|]. apply clause_eqb_eq in Hu. now rewrite Hu.
+    - apply andb_prop in Hu. destruct Hu as [_ Hu]. rewrite mark_fst. apply aset_allc; [assumption|].
+      apply clause_eqb_eq in Hu. now rewrite Hu.
+    - apply andb_prop in Hu. destruct Hu. auto.
+    - apply andb_prop in Hu. destruct Hu as [Hx Hb]. apply clause_eqb_eq in Hx. destruct par; [assumption|].
+      apply IHb; [assumption|]. rewrite !mark_fst. repeat apply aset_allc; try assumption; now rewrite Hx.
+  Qed.
+
+  Lemma marks_dom st : forall acc q, directb q st = true \/ dom (fst acc) q -> dom (fst (marks st acc)) q.
+  Proof.
+    induction st as [|a IHa b IHb|x ex|x o ex|c t IHt f IHf|par x n b IHb]; intros acc q H; cbn [marks directb] in *.
+    - destruct H; [discriminate|assumption].
+    - apply IHb. destruct H as [H|H]; [apply orb_prop in H; destruct H; [right; apply IHa|]|right; apply IHa]; auto.
+    - rewrite mark_fst. apply aset_dom. destruct H as [H|H]; [left; apply Nat.eqb_eq in H; auto|now right].
+    - rewrite mark_fst. apply aset_dom. destruct H as [H|H]; [left; apply Nat.eqb_eq in H; auto|now right].
+    - apply IHf. destruct H as [H|H]; [apply orb_prop in H; destruct H; [right; apply IHt|]|right; apply IHt]; auto.
+    - destruct par; [destruct H; [discriminate|assumption]|].
+      apply IHb. destruct H as [H|H]; [apply orb_prop in H; destruct H as [H|H]|].
+      + right. rewrite !mark_fst. apply aset_dom. left. apply Nat.eqb_eq in H. auto.
+      + now left.
+      + right. rewrite !mark_fst. apply aset_dom. right. apply aset_dom. now right.
+  Qed.
+
+  Lemma aupdate_allc new : forall al, allc al -> allc new -> allc (aupdate al new).
+  Proof.
+    unfold aupdate. induction new as [|[y v] r IH]; intros al Ha Hn; cbn [fold_left]; [assumption|].
+    inversion Hn as [|? ? Hy Hr]; subst. apply IH; [|assumption]. now apply aset_allc.
+  Qed.
+
+  Lemma aupdate_dom_l new : forall al q, dom al q -> dom (aupdate al new) q.
+  Proof.
+    unfold aupdate. induction new as [|[y v] r IH]; intros al q H; cbn [fold_left]; [assumption|].
+    apply IH. apply aset_dom. now right.
+  Qed.
+
+  Lemma aupdate_dom_r new : forall al q, dom new q -> dom (aupdate al new) q.
+  Proof.
+    unfold aupdate. induction new as [|[y v] r IH]; intros al q H; cbn [fold_left].
+    - now destruct H.
+    - unfold dom in H. cbn [aget] in H. destruct (Nat.eqb y q) eqn:E.
+      + apply Nat.eqb_eq in E. subst. apply (aupdate_dom_l r). apply aset_dom. now left.
+      + now apply IH.
+  Qed.
+
+  Lemma nested_uses st : uses rho st = true ->
+    Forall (fun nb => rho (fst nb) = CFirstLast /\ uses rho (snd nb) = true) (nested st).
+  Proof.
+    induction st as [|a IHa b IHb|x ex|x o ex|c t IHt f IHf|par x n b IHb]; intros Hu; cbn [nested uses] in *;
+      try constructor.
+    - apply andb_prop in Hu. destruct Hu. apply Forall_app. auto.
+    - apply andb_prop in Hu. destruct Hu. apply Forall_app. auto.
+    - apply andb_prop in Hu. destruct Hu as [Hx Hb]. apply clause_eqb_eq in Hx. destruct par; [|auto].
+      apply Forall_app. split; [auto|]. constructor; [|constructor]. cbn [fst snd]. auto.
+  Qed.
+
+  (* an assigned name is recorded in the node itself or in one of the nested prange nodes *)
+  Lemma assigned_where st x : assignedb x st = true ->
+    directb x st = true \/ exists nb, In nb (nested st) /\ (x = fst nb \/ directb x (snd nb) = true).
+  Proof.
+    induction st as [|a IHa b IHb|y ex|y o ex|c t IHt f IHf|par y n b IHb]; intros H; cbn [assignedb directb nested] in *.
+    - discriminate.
+    - apply orb_prop in H. destruct H as [H|H]; [destruct (IHa H) as [D|(nb & Hin & Hx)]|destruct (IHb H) as [D|(nb & Hin & Hx)]].
+      + left. now rewrite D.
+      + right. exists nb. split; [apply in_or_app; now left|assumption].
+      + left. rewrite D. apply orb_true_r.
+      + right. exists nb. split; [apply in_or_app; now right|assumption].
+    - now left.
+    - now left.
+    - apply orb_prop in H. destruct H as [H|H]; [destruct (IHt H) as [D|(nb & Hin & Hx)]|destruct (IHf H) as [D|(nb & Hin & Hx)]].
+      + left. now rewrite D.
+      + right. exists nb. split; [apply in_or_app; now left|assumption].
+      + left. rewrite D. apply orb_true_r.
+      + right. exists nb. split; [apply in_or_app; now right|assumption].
+    - destruct par.
+      + right. apply orb_prop in H. destruct H as [H|H].
+        * exists (y, b). split; [apply in_or_app; right; now left|]. left. apply Nat.eqb_eq in H. exact H.
+        * destruct (IHb H) as [D|(nb & Hin & Hx)].
+          -- exists (y, b). split; [apply in_or_app; right; now left|]. now right.
+          -- exists nb. split; [apply in_or_app; now left|assumption].
+      + apply orb_prop in H. destruct H as [H|H]; [left; now rewrite H|].
+        destruct (IHb H) as [D|(nb & Hin & Hx)]; [left; rewrite D; apply orb_true_r|].
+        right. exists nb. split; assumption.
+  Qed.
+
+  Lemma node_assignments_allc tgt body : rho tgt = CFirstLast -> uses rho body = true ->
+    allc (node_assignments tgt body).
+  Proof.
+    intros Ht Hu. unfold node_assignments, node_marks. apply aset_allc; [|now rewrite Ht].
+    apply marks_allc; [assumption|constructor].
+  Qed.
+
+  Lemma node_assignments_dom tgt body q : q = tgt \/ directb q body = true -> dom (node_assignments tgt body) q.
+  Proof.
+    intros H. unfold node_assignments, node_marks. apply aset_dom. destruct H as [->|H]; [now left|].
+    right. apply marks_dom. now left.
+  Qed.
+
+  Lemma final_merge_spec nodes : forall st,
+    Forall (fun nb => rho (fst nb) = CFirstLast /\ uses rho (snd nb) = true) nodes -> allc (fst st) ->
+    let res := fold_left (fun st nb => let na := node_assignments (fst nb) (snd nb) in
+                                       (aupdate (fst st) na, snd st ++ merge_errs (fst st) na)) nodes st in
+    allc (fst res) /\
+    (forall q, dom (fst st) q \/ (exists nb, In nb nodes /\ (q = fst nb \/ directb q (snd nb) = true)) -> dom (fst res) q).
+  Proof.
+    induction nodes as [|nb r IH]; intros st Hn Ha; cbn [fold_left].
+    - split; [assumption|]. intros q [H|(nb & [] & _)]. assumption.
+    - inversion Hn as [|? ? [Hx Hu] Hr]; subst.
+      set (st1 := (aupdate (fst st) (node_assignments (fst nb) (snd nb)),
+                   snd st ++ merge_errs (fst st) (node_assignments (fst nb) (snd nb)))).
+      destruct (IH st1 Hr) as [A D].
+      { cbn [st1 fst]. apply aupdate_allc; [assumption|now apply node_assignments_allc]. }
+      split; [exact A|]. intros q H. apply D. destruct H as [H|(nb' & [<-|Hin] & Hq)].
+      + left. cbn [st1 fst]. now apply aupdate_dom_l.
+      + left. cbn [st1 fst]. apply aupdate_dom_r. apply node_assignments_dom. destruct Hq; auto.
+      + right. exists nb'. auto.
+  Qed.
+
+  (* MAIN: the compiler model classifies every uniformly used name as declared *)
+  Theorem classify_declared r x :
+    rho (r_tgt r) = CFirstLast -> uses rho (r_body r) = true ->
+    x = r_tgt r \/ assignedb x (r_body r) = true ->
+    classify r x = rho x /\ (rho x = CFirstLast \/ exists o, rho x = CRed o /\ omp_reduction_op o = true).
+  Proof.
+    intros Ht Hu Hx.
+    pose proof (final_merge_spec (nested (r_body r)) (node_assignments (r_tgt r) (r_body r), [])
+                  (nested_uses _ Hu) (node_assignments_allc _ _ Ht Hu)) as [A D].
+    fold (final_merge (r_tgt r) (r_body r)) in A, D. fold (final_assignments (r_tgt r) (r_body r)) in A, D.
+    assert (Hd : dom (final_assignments (r_tgt r) (r_body r)) x).
+    { apply D. cbn [fst]. destruct Hx as [->|Hx].
+      - left. apply node_assignments_dom. now left.
+      - destruct (assigned_where _ _ Hx) as [Hdir|Hn]; [left; apply node_assignments_dom; now right|now right]. }
+    unfold classify. unfold dom in Hd. destruct (aget (final_assignments (r_tgt r) (r_body r)) x) as [op|] eqn:Eg; [|contradiction].
+    pose proof (allc_aget _ _ _ A Eg) as Hop.
+    destruct (Nat.eqb x (r_tgt r)) eqn:Et.
+    - apply Nat.eqb_eq in Et. subst x. split; [now rewrite Ht|now left].
+    - destruct (rho x) as [o| | |] eqn:Er; cbn [op_of] in Hop; try discriminate; injection Hop as <-.
+      + (* a declared reduction: its operator is one of the string *)
+        assert (Ho : omp_reduction_op o = true).
+        { clear - Hu Hx Er Et. destruct Hx as [->|Hx]; [rewrite Nat.eqb_refl in Et; discriminate|].
+          revert Hx. generalize (r_body r) Hu. clear Hu. intros st.
+          induction st as [|a IHa b IHb|y ex|y p ex|c t IHt f IHf|par y n b IHb]; cbn [uses assignedb]; intros Hu Hx.
+          - discriminate.
+          - apply andb_prop in Hu. destruct Hu. apply orb_prop in Hx. destruct Hx; auto.
+          - apply Nat.eqb_eq in Hx. subst y. apply clause_eqb_eq in Hu. rewrite Er in Hu. discriminate.
+          - apply Nat.eqb_eq in Hx. subst y. apply andb_prop in Hu. destruct Hu as [Hp Hc].
+            apply clause_eqb_eq in Hc. rewrite Er in Hc. injection Hc as ->. exact Hp.
+          - apply andb_prop in Hu. destruct Hu. apply orb_prop in Hx. destruct Hx; auto.
+          - apply andb_prop in Hu. destruct Hu as [Hy Hb]. apply orb_prop in Hx. destruct Hx as [Hx|Hx]; [|auto].
+            apply Nat.eqb_eq in Hx. subst y. apply clause_eqb_eq in Hy. rewrite Er in Hy. discriminate. }
+        rewrite Ho. split; [reflexivity|right; eauto].
+      + split; [reflexivity|now left].
+  Qed.
+End Declared.
+
+(* wf only looks at the classification of the names it meets *)
+Lemma wf_ext cls1 cls2 : (forall x, cls1 x = cls2 x) -> forall st D, wf cls1 D st = wf cls2 D st.
+Proof.
+  intros H.
+  assert (Hv : forall D x, var_ok cls1 D x = var_ok cls2 D x) by (intros; unfold var_ok; now rewrite H).
+  assert (He : forall D e, expr_ok cls1 D e = expr_ok cls2 D e).
+  { intros D e. induction e as [c|x|b a IHa c IHc]; cbn [expr_ok]; [reflexivity|apply Hv|now rewrite IHa, IHc]. }
+  induction st as [|a IHa b IHb|x ex|x o ex|c t IHt f IHf|par x n b IHb]; intros D; cbn [wf].
+  - reflexivity.
+  - rewrite IHa. destruct (wf cls2 D a); [apply IHb|reflexivity].
+  - now rewrite H, He.
+  - now rewrite H, He.
+  - rewrite He, IHt, IHf. reflexivity.
+  - rewrite He, H, IHb. reflexivity.
+Qed.
+
+(* a body that is well-formed for DECLARED roles which it uses uniformly is well-formed for the
+   classification the compiler model computes (so the any-schedule theorem applies to it), as soon
+   as the front end reports no error and the declaration agrees with the model on unassigned names
+   (shared / block-private) *)
+Theorem declared_region_wf fx r rho Df :
+  rho (r_tgt r) = CFirstLast -> uses rho (r_body r) = true ->
+  (forall x, x <> r_tgt r -> assignedb x (r_body r) = false -> rho x = classify r x) ->
+  wf rho [r_tgt r] (r_body r) = Some Df ->
+  region_errors fx r = [] ->
+  region_wf fx r = Some Df.
+Proof.
+  intros Ht Hu Hun Hwf Herr.
+  assert (Heq : forall x, classify r x = rho x).
+  { intros x. destruct (Nat.eqb x (r_tgt r)) eqn:Et.
+    - apply Nat.eqb_eq in Et. apply (classify_declared rho r x Ht Hu). now left.
+    - destruct (assignedb x (r_body r)) eqn:Ea.
+      + apply (classify_declared rho r x Ht Hu). now right.
+      + symmetry. apply Hun; [|assumption]. intros ->. rewrite Nat.eqb_refl in Et. discriminate. }
+  unfold region_wf. rewrite Herr, (Heq (r_tgt r)), Ht. cbn [clause_eqb].
+  rewrite (wf_ext (classify r) rho Heq). exact Hwf.
+Qed.
